@@ -9,7 +9,7 @@ import ast
 import json
 import os
 
-SRC = "/repo/strawberryfields/backends/gaussianbackend/gaussiancircuit.py"
+SRC = os.path.join(os.environ.get("SFV_REPO", "/repo"), "strawberryfields/backends/gaussianbackend/gaussiancircuit.py")
 METHODS = ["displace", "squeeze", "phase_shift", "beamsplitter", "loss", "thermal_loss", "init_thermal"]
 PRIM_REAL = {"sin", "cos", "sinh", "cosh", "sqrt"}
 RESERVED = {"s", "N", "K", "a_", "b_", "fun", "let", "in", "if", "then", "else", "re", "im", "mean", "nmat", "mmat", "nlen"}
